@@ -69,7 +69,7 @@ func c08Gen(r *rand.Rand, tier string, idx int) any {
 		p.HelloAlt = c08HelloAlts[r.IntN(len(c08HelloAlts))]
 	}
 	if p.Mode == "any" && r.IntN(5) == 0 {
-		p.Flood = []string{"frags", "frags", "tiny", "empty", "empty-nonempty", "overlap", "seqs"}[r.IntN(7)]
+		p.Flood = []string{"frags", "frags", "tiny", "empty", "empty-nonempty", "overlap", "seqs", "run", "run"}[r.IntN(9)]
 		p.N = 200 + r.IntN(1200)
 		if p.Flood != "frags" {
 			p.N = 900 + r.IntN(900) // the count limit is the one at stake
@@ -299,7 +299,7 @@ func hostileDatagram(r *rand.Rand, captured [][]byte, cidLen int, uOnly bool) (d
 	return []byte{0}, "noise"
 }
 
-var c08FloodShapes = []string{"frags", "tiny", "empty", "empty-nonempty", "overlap", "seqs"}
+var c08FloodShapes = []string{"frags", "tiny", "empty", "empty-nonempty", "overlap", "seqs", "run"}
 
 // floodFragment builds the i-th datagram of a reassembly flood: one cleartext handshake fragment
 // of a future message, in one of several shapes. Message sequence numbers lie just ahead of the
@@ -319,9 +319,14 @@ func floodFragment(hr *rand.Rand, shape string, i, pick, recSeq int) []byte {
 		msgLen, off, fl = 60000, i*7, 100
 	case "seqs": // one small fragment for each of many future messages
 		msgLen, off, fl, seq = 300, 0, 20, 1+i
+	case "run": // small COMPLETE messages with consecutive message_seq: each one that continues the sequence is surfaced
+		msgLen, off, fl, seq = 5, 0, 5, i&0xffff
 	}
 	h := make([]byte, 12)
 	h[0] = []byte{11, 14, 12, 2}[hr.IntN(4)]
+	if shape == "run" {
+		h[0] = []byte{0, 4, 4, 24}[hr.IntN(4)] // types no flight of a DTLS 1.2 handshake is waiting for
+	}
 	putU24(h[1:], msgLen)
 	putU16(h[4:], seq)
 	putU24(h[6:], off)
